@@ -531,7 +531,7 @@ func (r *runner) write(db, rp string, pts []*point) string {
 		for _, p := range pts {
 			fmt.Fprintf(&body, "%s,host=%s id=%di,v=%di %d\n", lpEsc(p.name, true), lpEsc(p.host, false), p.id, p.v, baseTime.UnixNano()+p.id)
 		}
-		u := r.tm.HTTPD.URL() + "/kapacitor/v1/write?db=" + urlEsc(db) + "&rp=" + urlEsc(rp)
+		u := r.tm.HTTPD.URL() + "/write?db=" + urlEsc(db) + "&rp=" + urlEsc(rp)
 		var resp *http.Response
 		err, hung := r.call("POST /write", func() error { var e error; resp, e = http.Post(u, "text/plain", &body); return e })
 		if hung {
